@@ -1123,3 +1123,20 @@ def run(rep):
     for o in rep.obl:
         if o['rule'] == 'R01k':
             o['rule'] = 'R03k'
+    # R03s: an interrupted lazy validation never reports the part it did not look at (C01's R01b, loop-coverage clause, under C03's id)
+    before = len(rep.obl)
+    bb = len(rep.broken)
+    c01.r01b(rep, F)
+    keep = [o for o in rep.obl[before:] if o['role'] == 'validation-covers-every-node']
+    del rep.obl[before:]
+    for o in keep:
+        o['rule'] = 'R03s'
+        rep.obl.append(o)
+    rep.nontrivial = {(('R03s' if (r == 'R01b' and role == 'validation-covers-every-node') else r), fn_, role) for (r, fn_, role) in rep.nontrivial
+                      if not (r == 'R01b' and role != 'validation-covers-every-node')}
+    rep.broken[bb:] = [b.replace('R01b', 'R03s') for b in rep.broken[bb:] if 'extraction-time validation loops' in b]
+    rep.rule_text.pop('R01b', None)
+    rep.rule('R03s', 'the extraction-time validation of a lazy planner looks at every extracted node before the path is reported: the loop that '
+                     'validates mpath[i] runs over the whole list and can stop early only through the failure verdict (a flag the failing branch '
+                     'clears, or return false) -- never through the termination condition or another conjunct while the verdict is still '
+                     'positive, which would register a half-validated path as a solution of an interrupted solve()')
